@@ -2,10 +2,11 @@
 C15 — blocking on the byte ring is live.
 
 Property theorems only (helper lemmas: `Proofs/RingLive.lean`, `Proofs/RingProgress.lean`).
-They are about the model of the *repaired* `service/buffer.go` (defects D1–D4 of DESIGN §9,
-see known_findings.json) and hold for every ring size, thread programs (well-typed by
-role: one producer, one consumer, any number of closers, Close also callable by producer
-and consumer), and every schedule.  Liveness is stated without temporal logic:
+They are about the model of the *repaired* `service/buffer.go` (defects D1–D4 of DESIGN §9 and
+the read-block reservation of `ReadFrom`, finding F3; see known_findings.json) and hold for every
+ring size, thread programs (well-typed by role: one producer, one consumer, any number of closers,
+Close also callable by producer and consumer; `ReadFrom` with any reader script among the producer's
+calls), and every schedule.  Liveness is stated without temporal logic:
 
 * `C15_NoLeak`            a mutex is held only by a thread inside that mutex's critical section;
                           a thread between two calls (or finished) holds none; the process never
@@ -22,6 +23,12 @@ and consumer), and every schedule.  Liveness is stated without temporal logic:
 * `C15_Progress_quiescent` deadlock- and lost-wake-up-freedom: if no thread can take a step, every
                           unfinished thread is legitimately waiting (parked, ring open, its
                           condition genuinely unmet).
+* `C15_ReadFrom_reads_nonempty`, `C15_ReadFrom_waits_only_when_full`
+                          `ReadFrom` (repository commit 8f682d1) hands its reader a slice of at least one
+                          byte (it cannot spin on an empty read), its `WriteCommit` never waits, and the
+                          only state in which it is kept from reading is a ring that is completely full
+                          and open — it is never parked while a single byte is free (finding F3 was:
+                          parked while less than a read block is free).
 * `C15_Progress`          a termination measure `mu` (rank of the program counters + weight of the
                           calls not yet started + credit of pending wake-ups) strictly decreases with
                           every enabled step of every thread: no schedule contains more than
@@ -102,7 +109,8 @@ theorem C15_NoLostWakeup (cfg : Cfg) (adv gate : Nat) (progP progC : List Call) 
     exact ⟨H.1, H.2 hst⟩
 
 /-- **CloseTerminates.**  (1) Every own step of a thread inside `Close` decreases `closeRank`
-(7 … 1) by exactly one and the last one returns `ok`.  (2) In a reachable state a thread inside
+(7 … 1) by exactly one and the last one returns: `ok` to a caller of `Close`; if it was the deferred
+`Close` of `ReadFrom` (frame `rfret n e`), `ReadFrom` returns `(n, e)`.  (2) In a reachable state a thread inside
 `Close` that cannot step is at one of its two `Lock`s and that mutex is held by an existing
 thread which *can* step.  (3) A thread inside a critical section releases the mutex within
 `csRank ≤ 3` own steps, none of which blocks. -/
@@ -111,7 +119,9 @@ theorem C15_CloseTerminates (cfg : Cfg) (adv gate : Nat) (progP progC : List Cal
     let s := reach cfg adv gate progP progC progsK sched
     (∀ t th sh' th', s.getTh t = some th → 0 < closeRank th.pc → tstep cfg s.sh t th = some (sh', th') →
         closeRank th'.pc + 1 = closeRank th.pc ∧
-        (closeRank th'.pc = 0 → th'.pc = .idle ∧ ∃ r, th'.res = some r ∧ r.err = .ok)) ∧
+        (closeRank th'.pc = 0 → th'.pc = .idle ∧ ∃ r, th'.res = some r ∧
+          ((∀ n e, th.cur ≠ some (.rfret n e)) → r.err = .ok) ∧
+          (∀ n e, th.cur = some (.rfret n e) → r.n = n ∧ r.err = e))) ∧
     (∀ t th, s.getTh t = some th → 0 < closeRank th.pc → step cfg s t = none →
         ∃ m t' th', wantsLock th.pc = some m ∧ s.sh.owner m = some t' ∧ s.getTh t' = some th' ∧
           holds th'.pc m = true ∧ step cfg s t' ≠ none) ∧
@@ -144,20 +154,24 @@ theorem C15_CloseTerminates (cfg : Cfg) (adv gate : Nat) (progP progC : List Cal
   · intro pc; cases pc <;> simp [csRank]
 
 /-- **DoneUnblocks.**  (1) `done` is never reset.  (2) With `done` set, a thread at an entry check
-(`Write`, `waitForWriteSpace`) returns end-of-stream in that step, and a thread at the `done` test
-of a wait loop goes to the loop's unlock-and-return exit instead of `Wait`; (3) that exit returns
-end-of-stream holding no mutex.  (4) A reachable state with `done` set in which no thread can take
-a step has no unfinished call: nobody stays blocked once the ring is closed. -/
+(`Write`, `waitForWriteSpace`, the head of `ReadFrom`'s loop) returns end-of-stream in that step —
+inside `ReadFrom`: begins `ReadFrom`'s deferred `Close` (seven straight-line steps, `C15_CloseTerminates`),
+after which `ReadFrom` returns end-of-stream —, and a thread at the `done` test of a wait loop goes to
+the loop's unlock-and-return exit instead of `Wait`; (3) that exit returns end-of-stream (resp. begins
+`ReadFrom`'s deferred `Close`) holding no mutex.  (4) A reachable state with `done` set in which no
+thread can take a step has no unfinished call: nobody stays blocked once the ring is closed. -/
 theorem C15_DoneUnblocks (cfg : Cfg) (adv gate : Nat) (progP progC : List Call) (progsK : List (List Call))
     (hgate : gate ≤ adv) (hok : ProgsOK progP progC progsK) (sched : List Tid) :
     let s := reach cfg adv gate progP progC progsK sched
     (∀ t th sh' th', tstep cfg s.sh t th = some (sh', th') → s.sh.done = true → sh'.done = true) ∧
     (∀ t th sh' th', s.sh.done = true → doneTest th.pc = true → tstep cfg s.sh t th = some (sh', th') →
         (th'.pc = .idle ∧ ∃ r, th'.res = some r ∧ r.err = .eof) ∨
+        (th'.pc = .x10 ∧ ∃ n, th'.cur = some (.rfret n .eof)) ∨
         (∃ n p, th'.pc = .s35 n p) ∨ (∃ n c, th'.pc = .r76 n c) ∨ (∃ w n c, th'.pc = .p85 w n c)) ∧
     (∀ t th sh' th', ((∃ n p, th.pc = .s35 n p) ∨ (∃ n c, th.pc = .r76 n c) ∨ (∃ w n c, th.pc = .p85 w n c)) →
         tstep cfg s.sh t th = some (sh', th') →
-        th'.pc = .idle ∧ (∃ r, th'.res = some r ∧ r.err = .eof) ∧ ∀ m, holds th'.pc m = false) ∧
+        ((th'.pc = .idle ∧ ∃ r, th'.res = some r ∧ r.err = .eof) ∨
+         (th'.pc = .x10 ∧ ∃ n, th'.cur = some (.rfret n .eof))) ∧ ∀ m, holds th'.pc m = false) ∧
     (s.sh.done = true → (∀ t, step cfg s t = none) →
         ∀ t th, s.getTh t = some th → th.pc = .idle ∧ th.prog = []) := by
   intro s
@@ -238,8 +252,80 @@ performs exactly those lock operations at the marks -/
 theorem C15_lock_facts :
     Mqtt.Generated.bufferLocks = lockFacts ∧
     markPcs.map (fun pc => (pc.yid, lockOpCode pc))
-      = (((lockFacts.map (·.2)).flatten |> markOps).filter (fun p => p.1 < 110)).map (fun p => (some p.1, p.2)) :=
+      = (((lockFacts.map (·.2)).flatten |> markOps).filter (fun p => p.1 < 120)).map (fun p => (some p.1, p.2)) :=
   ⟨ring_lock_facts, lockFacts_steps⟩
+
+/-- **`ReadFrom` never hands its reader an empty slice** (an `io.Reader` answers a zero-length `Read`
+with `(0, nil)`: the loop would spin).  In a reachable state in which the producer is at mark 112 —
+`waitForWriteSpace(1)` has returned, the consumer cursor is about to be loaded — its next step goes to
+the socket read (mark 111) with a slice of `len` bytes at the producer position, where
+`1 ≤ len ≤ read block`, the slice ends at or before the end of the ring, and lies inside the part of
+the ring that is free as of the CURRENT consumer cursor (and stays free: the cursor only advances). -/
+theorem C15_ReadFrom_reads_nonempty (cfg : Cfg) (adv gate : Nat) (progP progC : List Call) (progsK : List (List Call))
+    (hgate : gate ≤ adv) (hok : ProgsOK progP progC progsK) (sched : List Tid) (hrb : 0 < cfg.rblock)
+    (tot : Nat) (ms : List Nat) (ppos : Nat) :
+    let s := reach cfg adv gate progP progC progsK sched
+    s.P.pc = .g112 tot ms ppos →
+    ∃ s' len, step cfg s .p = some s' ∧ s'.P.pc = .g111 tot ms ppos len ∧ ppos = s.sh.pseq ∧
+      1 ≤ len ∧ len ≤ cfg.rblock ∧ cfg.idx ppos + len ≤ cfg.size ∧ ppos + len ≤ s.sh.cseq + cfg.size := by
+  intro s hpc
+  have h := (C15_invariant cfg adv gate progP progC progsK hgate hok sched).safe
+  have hp := h.invP.pcinv
+  unfold pcP at hp
+  rw [hpc] at hp
+  obtain ⟨e1, e2⟩ := hp
+  have e1' : ppos = s.sh.pseq := e1
+  have e2' : ppos + 1 ≤ s.sh.cseq + cfg.size := e2
+  have hcp : s.sh.cseq ≤ s.sh.pseq := h.glob.cp
+  have hnc : s.sh.crash = false := (C15_invariant cfg adv gate progP progC progsK hgate hok sched).lock.nocrash
+  obtain ⟨a, b, c, d⟩ := readfrom_len cfg s.sh.cseq ppos hrb (by omega) e2'
+  let len := if cfg.idx ppos + min cfg.rblock (cfg.size - (ppos - s.sh.cseq)) > cfg.size then cfg.size - cfg.idx ppos
+             else min cfg.rblock (cfg.size - (ppos - s.sh.cseq))
+  let th' : Th := ({ s.P with res := none } : Th).goto (.g111 tot ms ppos len)
+  have hst : tstep cfg s.sh .p s.P = some (s.sh, th') := by
+    unfold tstep
+    rw [hpc]
+    simp only [hnc, Bool.false_eq_true, ↓reduceIte]
+    rfl
+  refine ⟨({ s with sh := s.sh } : St).setTh .p th', len, ?_, rfl, e1', a, b, c, d⟩
+  unfold step
+  simp only [St.getTh]
+  rw [hst]
+
+/-- **`ReadFrom` is kept from reading only by a completely full ring.**  In a reachable state in
+which no thread can take a step: a producer that has not finished its program is parked in
+`waitForWriteSpace` with the ring open; if it is inside `ReadFrom` (frame `rfrom`) the ring is
+completely full (`pseq = cseq + size`: not one byte free); and it is never the `WriteCommit` called
+by `ReadFrom` that waits (frame `rfcommit`: the space it commits was free when `ReadFrom` loaded the
+consumer cursor).  Before commit 8f682d1 the first statement read "less than a read block free" —
+with the processor waiting for the rest of a packet that needs that block, finding F3. -/
+theorem C15_ReadFrom_waits_only_when_full (cfg : Cfg) (adv gate : Nat) (progP progC : List Call)
+    (progsK : List (List Call)) (hgate : gate ≤ adv) (hok : ProgsOK progP progC progsK) (sched : List Tid) :
+    let s := reach cfg adv gate progP progC progsK sched
+    (∀ t, step cfg s t = none) →
+    (s.P.pc = .idle ∧ s.P.prog = []) ∨
+    (pParked s.P.pc = true ∧ s.sh.done = false ∧
+      (∀ tot ms, s.P.cur = some (.rfrom tot ms) → s.sh.pseq = s.sh.cseq + cfg.size) ∧
+      (∀ tot ms, s.P.cur ≠ some (.rfcommit tot ms))) := by
+  intro s hq
+  have h := C15_invariant cfg adv gate progP progC progsK hgate hok sched
+  rcases quiescent_legit cfg adv s h.safe h.lock h.nlwc h.nlwp hq .p s.P rfl with a | ⟨hc, _⟩ | ⟨_, hpk, hns, hd⟩
+  · exact Or.inl a
+  · cases hc
+  · refine Or.inr ⟨hpk, hd, ?_, ?_⟩
+    all_goals (
+      have hp := h.safe.invP.pcinv
+      have hpcs : s.sh.pseq ≤ s.sh.cseq + cfg.size := h.safe.glob.pc
+      unfold pcP at hp
+      cases hpc : s.P.pc <;> rw [hpc] at hpk hns hp <;> simp only [pParked, Bool.false_eq_true] at hpk)
+    · rename_i n ppos
+      obtain ⟨e1, e2, _⟩ := hp
+      have e1' : ppos = s.sh.pseq := e1
+      have hns' : ppos + n > s.sh.cseq + cfg.size := hns
+      intro tot ms hcur
+      have := e2.2.2 tot ms hcur
+      omega
+    · exact hp.2.2
 
 /-! non-vacuity: a blocked reader is woken by data, a blocked reader is woken by Close -/
 
@@ -260,6 +346,24 @@ example :
 example :
     let s := reach exCfg 0 0 [] [.rwait 2] [[.close]] (List.replicate 8 .c ++ List.replicate 8 (.k 0) ++ List.replicate 6 .c)
     s.C.pc = .idle ∧ s.C.prog = [] ∧ (s.C.res.map (·.err)) = some .eof ∧ s.sh.pL = none ∧ s.sh.cL = none ∧ s.sh.done = true := by
+  decide +kernel
+
+/-- `ReadFrom` on a 4-byte ring with read block 2 and no consumer: two reads of 2 bytes, then the ring
+is completely full and the producer is parked in `waitForWriteSpace(1)` — only then -/
+example :
+    let cfg : Cfg := { k := 2, src := fun i => UInt8.ofNat (i + 1), rblock := 2 }
+    let s := reach cfg 0 0 [.rfrom 0 [4, 4, 4]] [] [[.close]] (List.replicate 50 .p)
+    pParked s.P.pc = true ∧ s.P.cur = some (.rfrom 4 [4]) ∧ s.sh.pseq = s.sh.cseq + cfg.size ∧ s.sh.pL = none := by
+  decide +kernel
+
+/-- …and Close from another thread makes it return (`return 0, err` of `ReadFrom`, after its own
+deferred `Close`), leaving both mutexes free -/
+example :
+    let cfg : Cfg := { k := 2, src := fun i => UInt8.ofNat (i + 1), rblock := 2 }
+    let s := reach cfg 0 0 [.rfrom 0 [4, 4, 4]] [] [[.close]]
+      (List.replicate 50 .p ++ List.replicate 8 (.k 0) ++ List.replicate 20 .p)
+    s.P.pc = .idle ∧ s.P.prog = [] ∧ s.P.res = some { n := 0, err := .eof } ∧ s.sh.pseq = 4 ∧
+      s.sh.pL = none ∧ s.sh.cL = none ∧ s.sh.done = true := by
   decide +kernel
 
 end Mqtt.Properties.C15
